@@ -23,12 +23,12 @@ CW = 21
 class RM:
     """bounded symbolic model of `re.match` at concrete positions over symbolic characters"""
 
-    def __init__(self, L):
+    def __init__(self, L, prefix=""):
         import z3
         self.z3 = z3
         self.L = L
-        self.x = [z3.BitVec("x%d" % i, CW) for i in range(L)]
-        self.n = z3.Int("n")
+        self.x = [z3.BitVec("%sx%d" % (prefix, i), CW) for i in range(L)]
+        self.n = z3.Int(prefix + "n")
         self.memo = {}
         self._keep = []
 
@@ -503,4 +503,64 @@ def lx_bare_word(ctx="value", L=8):
     if r == "unsat" and tw == "sat":
         mo = s.model()
         return _res(t0, 2, verdict="PROVED-IN-BOUND", detail="unsat", witness="".join(chr(mo.eval(m.x[j], model_completion=True).as_long()) for j in range(mo.eval(m.n).as_long())))
+    return _res(t0, 2, verdict="INCONCLUSIVE", detail=f"solver {r}, twin {tw}")
+
+
+def lx_quote_symmetry(ctx="value", L=11):
+    """LX-QUOTE (symmetry): for EVERY text of length <= L, swapping the two quote characters throughout the text swaps the
+    DOUBLE_/SINGLE_ variants of the token the scanner produces (strings, hex colours) and leaves every other token type and the
+    lexeme length unchanged - the choice of quote style carries no meaning of its own."""
+    import z3
+    t0 = time.time()
+    S = scanner(ctx)
+    m1, m2 = RM(L, "a_"), RM(L, "b_")
+    ty1, end1, ok1 = S.scan(m1)
+    ty2, end2, ok2 = S.scan(m2)
+    s = z3.Solver()
+    s.set("timeout", 600000)
+    s.add(m1.n == m2.n, m1.n <= L, m1.n >= 0)
+    for j in range(L):
+        a, b = m1.x[j], m2.x[j]
+        s.add(z3.If(a == 34, b == 39, z3.If(a == 39, b == 34, b == a)))
+    # expected type correspondence
+    def idx(nm):
+        return S.allnames.index(nm) if nm in S.allnames else -2
+    pairs = [("DOUBLE_QUOTED_STRING", "SINGLE_QUOTED_STRING"), ("DOUBLE_QUOTED_HEXCOLOR", "SINGLE_QUOTED_HEXCOLOR")]
+    mapped = ty1
+    for d, q in pairs:
+        mapped = z3.If(ty1 == idx(d), z3.IntVal(idx(q)), z3.If(ty1 == idx(q), z3.IntVal(idx(d)), mapped))
+    # terminals that mention only one of the two quote characters are asymmetric by design (word lists inside { }); exclude texts
+    # whose token is one of them if the state accepts them
+    asym = [nm for nm in ("UNQUOTED_STRING_SPACE",) if nm in S.allnames]
+    excl = z3.Or([z3.Or(ty1 == idx(nm), ty2 == idx(nm)) for nm in asym]) if asym else z3.BoolVal(False)
+    s.push()
+    s.add(z3.Not(excl), z3.Not(z3.And(ok1 == ok2, z3.Implies(ok1, z3.And(ty2 == mapped, end1 == end2)))))
+    r = str(s.check())
+    if r == "sat":
+        mo = s.model()
+        n = mo.eval(m1.n, model_completion=True).as_long()
+        w1 = "".join(chr(mo.eval(m1.x[j], model_completion=True).as_long()) for j in range(n))
+        w2 = w1.translate({34: 39, 39: 34})
+        import os
+        verif = os.path.dirname(os.path.dirname(os.path.abspath(__file__)))
+        code = f'''# replay on the real scanner: the two quote styles of one text
+import sys
+sys.path.insert(0, {verif!r})
+from engine import lexmodel
+S = lexmodel.scanner({ctx!r})
+a, b = S.real({w1!r}), S.real({w2!r})
+print({w1!r}, "->", a)
+print({w2!r}, "->", b)
+swap = {{"DOUBLE_QUOTED_STRING": "SINGLE_QUOTED_STRING", "SINGLE_QUOTED_STRING": "DOUBLE_QUOTED_STRING", "DOUBLE_QUOTED_HEXCOLOR": "SINGLE_QUOTED_HEXCOLOR", "SINGLE_QUOTED_HEXCOLOR": "DOUBLE_QUOTED_HEXCOLOR"}}
+same = (a is None and b is None) or (a is not None and b is not None and swap.get(a[0], a[0]) == b[0] and a[1] == b[1])
+sys.exit(0 if same else 1)
+'''
+        return _res(t0, 1, verdict="CEX", detail=f"quote style changes the token: {w1!r} -> {S.real(w1)} but {w2!r} -> {S.real(w2)}", cex={"text": w1}, replay_code=code)
+    s.pop()
+    s.add(ok1, z3.Or(ty1 == idx("DOUBLE_QUOTED_HEXCOLOR"), ty1 == idx("SINGLE_QUOTED_HEXCOLOR")), end1 >= 9)
+    tw = str(s.check())
+    if r == "unsat" and tw == "sat":
+        mo = s.model()
+        n = mo.eval(m1.n).as_long()
+        return _res(t0, 2, verdict="PROVED-IN-BOUND", detail="unsat", witness="".join(chr(mo.eval(m1.x[j], model_completion=True).as_long()) for j in range(n)))
     return _res(t0, 2, verdict="INCONCLUSIVE", detail=f"solver {r}, twin {tw}")
